@@ -52,13 +52,33 @@ def run(ctx):
     if not ctx.quick():
         gencfg = gencfg.replace("GenLen = 3", "GenLen = 4")
     pcases = vlib.read_ndjson(vlib.gen_cases(ctx, "MCGenPathsGen", gencfg, timeout=1800))
-    defs = genlab.collect_defs(fam + pcases)
+    # wide readers: the same single-field types with 16 more optional fields (generated code may take another shape
+    # beyond some number of fields); they read encodings written for another type of the family (known id, other wire type)
+    def widen(d):
+        pad = [{"id": 200 + k, "name": "pad%d" % k, "t": {"k": "i32"}, "req": False, "def": {"k": "none"}} for k in range(1, 17)]
+        return dict(d, name="W" + d["name"], fields=list(d["fields"]) + pad)
+    wide_cases = []
+    if not ctx.replay:
+        def shape0(c):
+            d = [x for x in c["S"] if x["name"] == c["tn"]][0]
+            return d if len(d["fields"]) == 1 and d["kind"] != "union" else None
+        singles = [c for c in fam if shape0(c) is not None and c["v"]["f"]]
+        seen = {}
+        for c in singles:
+            seen.setdefault(c["tn"], c)
+        chosen = [seen[k] for k in sorted(seen)][:: max(1, len(seen) // (8 if ctx.quick() else 40))]
+        for rc in chosen:
+            wd = widen(shape0(rc))
+            S = list(rc["S"]) + [wd]
+            for w in [rc] + rng.sample(singles, min(len(singles), 10 if ctx.quick() else 60)):
+                wide_cases.append({"id": "w%d" % len(wide_cases), "op": "bytes", "S": S, "tn": wd["name"], "b": w["b"]})
+    defs = genlab.collect_defs(fam + pcases + wide_cases)
     lab, mod = genlab.build_lab(ctx, defs)
     if ctx.replay:
         rep = json.load(open(ctx.replay))
         cases = [rep["case"]]
     else:
-        cases = list(pcases)
+        cases = list(pcases) + wide_cases
         base = fam
         n = 0
         for c in base:
